@@ -85,10 +85,12 @@ func (w *ckWorld) viol(mon, sig, what string, hist []string) {
 type ckWorld struct {
 	seen map[string]bool
 	*World
-	env    *Env
-	hist   []string
-	recs   [][]byte // record id -> record key
-	tracks []ckTrack
+	env        *Env
+	hist       []string
+	recs       [][]byte // record id -> record key
+	tracks     []ckTrack
+	everActive map[int]bool // keys seen in the validator store (dom_conskeys_slash.go)
+	slashFP    string       // fingerprint of the last slash-probe round (dom_conskeys_slash.go)
 }
 
 func optS(i int) string {
@@ -348,6 +350,8 @@ func (w *ckWorld) monitors(ctx sdk.Context, phase string, pfx string) {
 	if !sk.IsEpochEnd(ctx) && len(po)+len(pc)+len(pu) > 0 {
 		w.viol("C16.drain", pfx+"pending-not-cleared", fmt.Sprintf("pending lists %v/%v/%v outside an epoch-closing block", po, pc, pu), w.hist)
 	}
+	// ---- C07: slash / jail probes by consensus address (dom_conskeys_slash.go)
+	w.slashMonitors(ctx, phase, pfx)
 }
 
 // ---- operations (each: real call, op line for the model, tracking for the monitors)
@@ -574,6 +578,9 @@ func domConsKeys(env *Env) error {
 	}
 	if env.Int("f16a", 0) == 1 {
 		scenarioF16a(env)
+	}
+	if env.Int("oldkeyslash", 0) == 1 {
+		scenarioOldKeySlash(env)
 	}
 	for hi := 0; hi < n; hi++ {
 		cfg := DefaultCfg(env.Report.Seed*1000 + uint64(hi))
